@@ -174,6 +174,42 @@ def work_rules(arg):
     return u
 
 
+def work_rec(arg):
+    """rule graphs with chains and cycles of abstract rules (the grammars of C03); here only verdict and model dump are compared"""
+    tier, gs = arg
+    u = Unit()
+    for g in gs:
+        alpha = gramgen.alphabet(g, foreign=False)
+        run_texts(g, {}, [" ".join(t) for t in gramgen.inputs(alpha, 3, 120)], u, "rec", label="rule-graph")
+    return u
+
+
+REGEXES = {"xyz": ["xyz"], "x(y)z": ["xyz"], "a(x)b|c(y)d": ["axb", "cyd"], "x((y)z)": ["xyz"], "(?:x)(y)z": ["xyz"], "(x)|y(z)": ["x", "yz"]}
+
+
+def regex_family():
+    """regular expressions with 0, 1 and 2 groups in every position where use_regexp_group may apply, and the multi-group base types"""
+    A = gramgen.A_
+    RE, REF, L, SEQ = gramgen.RE, gramgen.REF, gramgen.L, gramgen.SEQ
+    for pat, samples in REGEXES.items():
+        texts = samples + ["q", " ".join(samples + samples[:1])]
+        yield [("M", {}, A("p", "=", RE(pat)))], texts
+        yield [("M", {}, A("p", "+=", RE(pat)))], texts
+        yield [("M", {}, A("p", "=", REF("V"))), ("V", {}, RE(pat))], texts
+        # (a grouped regex inside the concatenated value of an enclosing match rule is not enumerated: the documentation does not say
+        #  whether the group or the whole match is concatenated - DESIGN.md 3.3)
+        for bt, vals in (("FLOAT", ["-1.5", "1e3", "+.5e-2"]), ("NUMBER", ["-7", "-1.5"]), ("BOOL", ["true", "0"]), ("STRING", ['"s"', "'t'"])):
+            yield [("M", {}, SEQ(A("p", "=", RE(pat)), A("q", "=", REF(bt))))], ["%s %s" % (x, v) for x in samples for v in vals]
+
+
+def work_regex(arg):
+    u = Unit()
+    for g, texts in arg:
+        for cfg in ({}, {"use_regexp_group": True}, {"use_regexp_group": True, "auto_init_attributes": False}):
+            run_texts(g, cfg, texts, u, "regex-group", label="regex-group")
+    return u
+
+
 def plan(tier):
     if tier == "quick":
         return [(1, 3), (2, 3), (3, 2)]
@@ -193,6 +229,14 @@ def run(ctx):
     fr = list(gramgen.frules(ctx.tier))
     ctx.pmap(work_rules, [(ctx.tier, fr[i:i + 10]) for i in range(0, len(fr), 10)])
     nb["rules-family"] = len(fr)
+    from mc.props import c03
+
+    rec = [g for n in (1, 2) for g in c03.grammars(n, ctx.tier)]
+    ctx.pmap(work_rec, [(ctx.tier, rec[i:i + 25]) for i in range(0, len(rec), 25)])
+    nb["rule-graph-family"] = len(rec)
+    rg = list(regex_family())
+    ctx.pmap(work_regex, [rg[i:i + 6] for i in range(0, len(rg), 6)])
+    nb["regex-group-family"] = len(rg)
     return {
         "rule": "case = (grammar text, configuration, rendered input); grammars = all root bodies with exactly k nodes from the tier's "
                 "alphabet passing the well-formedness filter; inputs = all token strings up to L tokens over the grammar's own alphabet "
